@@ -10,7 +10,8 @@
     decision (F-C06e) -- never the consistency of the root. *)
 From InvokeVerif Require Import Common.Tree Common.StrUtil Model.MergeModel Model.ConfigModel
      Spec.C03Spec Spec.C06Spec Proofs.ListFacts Proofs.TreeFacts Proofs.C03_merge Proofs.C03_levels
-     Proofs.C03_order Proofs.C06_shapes Proofs.C06_track Proofs.C06_refine.
+     Proofs.C03_order Proofs.C06_shapes Proofs.C06_track Proofs.C06_refine Model.EnvModel
+     Proofs.C06_envfacts.
 
 Lemma step_write' S c J kp k x ok : is_node S = true -> good S c J ->
   leaf_in S (kp ++ [k]) = true -> clear_upto (c_dels c) kp ->
@@ -182,6 +183,20 @@ Proof.
   - (* LoadCollection *)
     destruct (step_reload S c J (set_collection c t) t HS HG (level_okb_ok S t Hok)) as [d [Er Hg]]; [auto|].
     unfold merged. rewrite Er. simpl. rewrite app_nil_r. split; [exact Hg | intros e H; discriminate].
+  - (* LoadShellEnv *)
+    rewrite app_nil_r. destruct HG as [HL HI HC].
+    destruct (remerge_good S c J ONone HS HL HI) as [d1 [Er1 Hg1]]. rewrite Er1.
+    destruct (good_cache_conforms S _ J HS Hg1) as [Wc1 Cc1].
+    destruct (EnvModel.load (Node (c_cache (set_cache c d1))) (c_env_prefix (set_cache c d1)) env) as [dd|e] eqn:El.
+    + destruct (C06_envfacts.load_level_ok S _ _ _ dd HS Wc1 Cc1 El) as [Wdd Cdd].
+      destruct Hg1 as [HLa HIa HCa].
+      destruct (remerge_good S (set_env (set_cache c d1) (Node dd)) J ONone HS) as [d2 [Er2 Hg2]].
+      * unfold lower in *. lower_inv HLa. destruct c; simpl in *.
+        repeat (constructor; try assumption).
+      * destruct c; exact HIa.
+      * unfold merged. rewrite Er2. simpl. split; [exact Hg2 | intros e H; discriminate].
+    + simpl. split; [exact Hg1|]. intros e' H. inversion H; subst e'.
+      destruct (C06_envfacts.load_err_kind _ _ _ _ Wc1 El) as [ -> | [ -> | -> ] ]; auto 10.
 Qed.
 
 (** Under the guard the proxy's edit is always reported and merged (never the
